@@ -1,5 +1,6 @@
 from typing import Callable
 from ..sim import Environment
+from ..sim.resources.store import StoreGet
 from .port import Port
 
 
@@ -34,12 +35,31 @@ class PortMonitor:
         while True:
             yield self.env.timeout(self.dist())
 
+            # The packet in service is the one the port's server holds. The
+            # server learns about it only when it is resumed, up to two steps
+            # after the packet became the head of an idle port - look at what
+            # the server is waiting for instead of trusting its flags alone.
+            waiting = len(self.port.store.items)
+            busy = self.port.busy
+            busy_packet_size = self.port.busy_packet_size
+            request = self.port.action.target
+            if not busy and isinstance(request, StoreGet):
+                if request.triggered:
+                    # handed over in this instant, server not resumed yet
+                    busy = 1
+                    busy_packet_size = request.value.size
+                elif waiting:
+                    # the idle server's request is served within this instant
+                    busy = 1
+                    busy_packet_size = self.port.store.items[0].size
+                    waiting -= 1
+
             if self.pkt_in_service_included:
                 total_byte = self.port.byte_size
-                total = len(self.port.store.items) + self.port.busy
+                total = waiting + busy
             else:
-                total_byte = self.port.byte_size - self.port.busy_packet_size
-                total = len(self.port.store.items)
+                total_byte = self.port.byte_size - busy_packet_size
+                total = waiting
 
             self._sizes.append(total)
             self._sizes_byte.append(total_byte)
